@@ -96,6 +96,10 @@ PROPS.update({
         assumptions=PROV_ASSUME + ["'highest voting power' is staking's power-index order (A-STK-SORT)", "the staking/genutil wrapper modules returning no validator updates are not exercised by the keeper-level harness"],
         fields=r"^end\.(valupd|lastprov|res)"),
 })
+FAULTS = dict(name="faults", quick=(6, 700), thorough=(28, 4000))
+PROPS["C19"] = dict(streams=[FAULTS, LIFE], rule=PROV_RULE + "; faults stream: before BeginBlock / EndBlock a failure of one external call (client creation, connection lookup, client state, historical info, unbonding time, channel close, packet send) is armed for its n-th use; chain ids and initial heights with revisions 1 and 2; the C19 clauses are evaluated on every block of every stream",
+    assumptions=PROV_ASSUME + ["failures are injected only at calls made inside launch, deletion and packet sending (a failing staking query outside those is a dead chain)", "panics inside external modules are not modelled"],
+    fields=r"^(begin|end)\.res")
 PROPS["C01"]["streams"] = [VALSET, CONSUMER, EPOCH]
 PROPS["C01"]["fields"] = r"^(diff|accum|cinit|applycc)\.|^cons\.(cc|pendch|cend|cinit)|^end\.(sent|valupd)|^c\d+\.(pend|valset)"
 PROPS["C01"]["rule"] += "; " + CONS_RULE
@@ -103,10 +107,10 @@ PROPS["C01"]["rule"] += "; " + CONS_RULE
 NOT_APPLICABLE = {
     "C07": "not claimed in this round: the harness does not yet construct real signed duplicate-vote evidence / conflicting headers; the technique applies (decision logic + frame), slice not built (DESIGN.md §10)",
     "C16": "not claimed in this round: needs a Dec-exact model of the reward split/allocation path and scripted bank accounting; the technique applies (arithmetic conservation laws), slice not built (DESIGN.md §10)",
-    "C19": "not claimed in this round: failure-injection sweep and roll-back frame comparison not built; the technique applies (totality under invariant + roll-back frames), slice not built (DESIGN.md §10)",
 }
 
 LEVEL_TEXT = {
+    "C19": "Theorems: a failed launch leaves exactly the pre-launch state with phase registered and spawn cleared (others untouched), the fall-back cannot fail when initial height and chain id agree, creation/update keep them in agreement, deletion all-or-nothing, removal/infraction switch/meter have no error path. Tie: block results and all-or-nothing clauses on every block of every stream, with injected failures of external calls.",
     "C08": "Theorems: double-sign never punishes; effects = jailPlan (exactly the validator owning the key, existing, not unbonded/tombstoned/jailed, consumer's own downtime parameters, mapped infraction height); acks when declined; unknown id => error ack; consumer keeps one outstanding report per validator and clears on ack. Tie: one-step correspondence incl. the calls made to staking/slashing + Spec.Slash on the implementation.",
     "C09": "Theorems: meter <= allowance after BeginBlock, at most one allowance per period, none before the candidate time, bounced iff negative, deduction before handling, WINDOW BOUND (jailed power <= start meter + accrued allowances + one validator's power, for every trace), consumer retry FSM (no send while waiting, none before the delay, bounce keeps the packet, handled removes it once). Tie: correspondence of meter/candidate/acks and of the consumer queue/record.",
     "C12": "Theorems: id counter +1 per epoch and only then, open id mapped to height+1 every block, packets carry the current id, id 0 -> channel-open height, unknown id unresolvable; consumer: next height inherits, received id goes to height+1, slash packet carries the mapped id. Tie: correspondence + Spec.C12 / Spec.Cons on the implementation.",
